@@ -5,10 +5,14 @@ def plan(tier):
     conds = []
     conds += C.t_instr_conds("C05", tier)
     conds += C.t_upd_conds("C05", tier)
+    from vf.driver import Cond
+    # the tariff in force is the price of the last price row naming the station/plug (incl. a price of exactly zero)
+    conds.append(Cond("vf.h.h_req", "h_price", case=0, timeout=400, label="H05-tariff[station ids]", weight=20))
+    conds.append(Cond("vf.h.h_req", "h_price", case=1, timeout=400, label="H05-tariff[geoids]", weight=20))
     return {
         "conds": conds,
         "min_classes": 150,
-        "explanation": 'C05: per step, energy gained by the vehicle == energy dispensed by the station it charged at, payment sent == payment received == tariff x energy, other stations untouched; fares credited == request value; instructions move no energy or money.',
+        "explanation": 'C05: per step, energy gained by the vehicle == energy dispensed by the station it charged at, payment sent == payment received == tariff x energy, other stations untouched; fares credited == request value; instructions move no energy or money; the tariff in force after a price step is the last row naming the station and plug (H05-tariff, shared with C11).',
         "entry_points": ['step_simulation_ops.apply_instructions', 'step_simulation_ops.step_vehicle (VehicleState.update -> default_update -> move/charge/idle/pick_up_trip/drop_off_trip)'],
         "bounds": C.ARENA_BOUNDS + C.T_BOUNDS,
         "outside": C.T_OUTSIDE,
